@@ -90,7 +90,16 @@ def execute(acc, g, case):
                 # ---- build the request
                 sid = ("peer.remote.example;%d;%d" % (rng.randrange(2 ** 32), rng.randrange(2 ** 32))).encode()
                 try:
-                    request = msggen.make_plan(g, rt["lib"], rt["cls"], subset="random", session_id=sid).build()
+                    plan_ = msggen.make_plan(g, rt["lib"], rt["cls"], subset="random", session_id=sid)
+                    if n_dispatch % 3 == 1:
+                        # what a peer puts into its identity is the peer's business: octets that are no UTF-8, blanks, nothing
+                        # DNS would accept - the requester is still the destination of the fallback answer, octet for octet
+                        for arg, val in (("origin_host", rng.choice([b"hss\xff\xfe01.remote.example", b"h\xe9te.remote.example", b"peer 7.remote.example", b"\x00\x01"])),
+                                         ("origin_realm", rng.choice([b"remote.example", b"r\xffalm.example"]))):
+                            if arg in plan_.kwargs:
+                                plan_.kwargs[arg] = val
+                        acc.counters["requests_with_odd_identity_octets"] += 1
+                    request = plan_.build()
                 except BaseException as ex:
                     acc.observe("request-construction-rejected:%s" % type(ex).__name__)
                     continue
